@@ -37,7 +37,13 @@ Extracted(file, w) ==
                 /\ Strip(o.v.d) = Strip(w.v)
            ELSE o.kind # "stream" /\ o.v = w.v
 
+\* ISO 32000-2 14.4: a PDF 2.0 file has a file identifier of two byte strings of
+\* at least 16 bytes each; where an identifier is present it has two parts
+IDOK(c) == /\ Len(c.idlens) \in {0, 2}
+           /\ \A k \in 1..Len(c.idlens) : c.idlens[k] >= 0
+           /\ c.version = "2.0" => Len(c.idlens) = 2 /\ \A k \in 1..2 : c.idlens[k] >= 16
 CaseOK(c) == /\ c.stricterr = ""
+             /\ IDOK(c)
              /\ WellFormed(c.file)
              \* further findings of the strict parser (xref stream layout ...); its
              \* "object0" remark (generation of the free entry 0) is beyond C03
